@@ -17,7 +17,7 @@ HOSTILE = ["'", "''", '"', "`", "\\", "\\'", "--", "/*", "*/", "#", ";", "\n", "
 
 class G:
     def __init__(self, rng, tables=True, strings="plain", allow_shift=True, allow_params=False, allow_case=True,
-                 allow_funcs=True, allow_neg=True, int_range=9, allow_float=True):
+                 allow_funcs=True, allow_neg=True, int_range=9, allow_float=True, allow_filter=False):
         self.r = rng
         self.tables = tables
         self.strings = strings
@@ -28,6 +28,7 @@ class G:
         self.allow_neg = allow_neg
         self.int_range = int_range
         self.allow_float = allow_float
+        self.allow_filter = allow_filter
 
     # ---- leaves
     def field(self):
@@ -100,6 +101,13 @@ class G:
             return "(-%s)" % self.num(d - 1)
         if x < 0.90 and self.allow_funcs:
             y = r.random()
+            if y < 0.12 and self.allow_filter:
+                # an aggregate with a FILTER list: several criteria (a conjunction), given in one call or chained
+                f = "%s(%s)" % (r.choice(["fn.Sum", "fn.Avg", "fn.Max", "fn.Min", "fn.Count"]), self.num(d - 1))
+                cs = [self.crit(max(d - 1, 1)) for _ in range(r.choice([1, 2, 2, 3]))]
+                if r.random() < 0.5:
+                    return "%s.filter(%s)" % (f, ", ".join(cs))
+                return f + "".join(".filter(%s)" % c for c in cs)
             if y < 0.6:
                 return "%s(%s)" % (r.choice(FUNCS1), self.num(d - 1))
             if y < 0.8:
